@@ -43,10 +43,17 @@ META = {
             "The models are tied to /repo on every run (extracted lexer vs recursive_lexer.cpp token for token; model verdict vs exit status for "
             "directive-only files and println(<expr>); programs). Memory safety, absence of UB and termination of the C++ itself are TESTED, not proved: "
             "ASan+UBSan build, parse-only mode, on all repository .cb files, token mutations, truncations, nesting amplification to depth 2000, raw "
-            "bytes, token soup, plus full execution of generated CbCore programs.",
+            "bytes, token soup, plus full execution of generated CbCore programs. Declaration-level parser state: theorems about the two table walks "
+            "(TypeUtilityParser::resolveTypedefChain as coded ends within |typedef_map_|+1 iterations on every table, computes the chain where it ends and "
+            "answers 'unknown type' where it runs into a cycle; the start-only cycle check is refuted on the tables of a three-line program; "
+            "detectCircularReference recurses at most |struct_definitions_|+1 deep on every table), tied to /repo by a leaf driver that links the "
+            "repository's parser and dumps typedef_map_ / the definition tables / resolveTypedefChain for generated declaration sequences; malformed "
+            "declaration programs (name reuse between tags and aliases, re-declaration, self-reference, typedef cycles entered from outside, import "
+            "cycles) with uses of every name run under the same oracle.",
     "note": "PARTIAL by design: no C++ semantics in Coq, so the sanitizer half is a test campaign labelled as such; statement/declaration parsers are "
-            "not modelled. Trusted: Coq kernel (vm_compute for one finite sweep), no axioms (Print Assumptions: closed for all 15 theorems), extraction "
-            "(ExtrOcamlBasic+ExtrOcamlString), OCaml driver, leaf driver c10_lexdump.cpp, Python oracle, GCC sanitizers. Depends on coq/C17/Model.v "
+            "not modelled beyond the two table walks. Trusted: Coq kernel (vm_compute for one finite sweep), no axioms (Print Assumptions: closed for all 29 theorems), extraction "
+            "(ExtrOcamlBasic+ExtrOcamlString), OCaml driver, leaf drivers c10_lexdump.cpp and c10_typedefs.cpp (private members of RecursiveParser reached by "
+            "'#define private public' in that translation unit), Python oracle, GCC sanitizers. Depends on coq/C17/Model.v "
             "(preprocessor model) and coq/C17/Expand.v (two soundness lemmas).",
 }
 
@@ -61,9 +68,10 @@ BIG_STACK = 1 << 30       # deep-nesting stream: stack-size limit raised so that
 
 
 # ------------------------------------------------------------------ running the implementation
-def run_case(impl_dir, data, mode="parse", args=(), big_stack=False, cpu=10, wall=300, stack=None):
+def run_case(impl_dir, data, mode="parse", args=(), big_stack=False, cpu=10, wall=300, stack=None, files=None):
     """One run of `main` on the byte string `data`. Returns rc (negative = signal), CPU seconds, stdout/stderr.
-    big_stack: stack-size limit 1 GiB; stack=<bytes>: that stack-size limit; default: the inherited one (8 MiB)."""
+    big_stack: stack-size limit 1 GiB; stack=<bytes>: that stack-size limit; default: the inherited one (8 MiB).
+    files: {name: text} written next to the input (modules it imports; the input itself is t.cb, i.e. module `t`)."""
     d = tempfile.mkdtemp(prefix="c10run-", dir=common.SCRATCH_ROOT)
     try:
         try:
@@ -73,6 +81,9 @@ def run_case(impl_dir, data, mode="parse", args=(), big_stack=False, cpu=10, wal
         p = os.path.join(d, "t.cb")
         with open(p, "wb") as fh:
             fh.write(data)
+        for fn, txt in (files or {}).items():
+            with open(os.path.join(d, os.path.basename(fn)), "wb") as fh:
+                fh.write(txt.encode("latin-1") if isinstance(txt, str) else txt)
         env = dict(os.environ)
         env.update(SAN_ENV)
         if mode == "parse":
@@ -400,6 +411,14 @@ AMP = {
     "funcptr-type": lambda d: T("typedef int (*F)(" + R("int, ", d) + "int);"),
     "typedef-chain": lambda d: T("typedef int T0;\n" + "".join("typedef T%d T%d;\n" % (i, i + 1) for i in range(d)) + "T%d gq = 1;" % d),
     "typedef-array-chain": lambda d: T("typedef int[2] T0;\n" + "".join("typedef T%d T%d;\n" % (i, i + 1) for i in range(d)) + "T%d gq;" % d),
+    # typedef_map_ walks (resolveTypedefChain): a chain of d UNFLATTENED entries (typedef struct TAG {..} ALIAS; stores ALIAS -> TAG),
+    # then one use of its first name; a cycle of d entries entered from a tail; the same closed through the start; re-declarations
+    "typedef-struct-chain": lambda d: T("".join("typedef struct Q%d { int x; } Q%d;\n" % (i + 1, i) for i in range(d)) + "Q0 gq;"),
+    "typedef-cycle-tail": lambda d: T("".join("typedef struct Q%d { int x; } Q%d;\n" % ((i + 1) % d, i) for i in range(d))
+                                      + "typedef struct Q0 { int x; } QT;\nQT gq;"),
+    "typedef-cycle-start": lambda d: T("".join("typedef struct Q%d { int x; } Q%d;\n" % ((i + 1) % d, i) for i in range(d)) + "Q0 gq;"),
+    "typedef-redeclare": lambda d: T(R("typedef int QA; typedef QA QB; typedef QB QA; ", d) + "QA gq;"),
+    "struct-diamond": lambda d: T("struct M0 { int v; };\n" + "".join("struct M%d { M%d a; M%d b; };\n" % (i, i - 1, i - 1) for i in range(1, d + 1))),
     "union-wide": lambda d: T("typedef U = " + R("1 | ", d) + "2;"),
     "union-types-wide": lambda d: T("typedef U = " + R("int | ", d) + "string;"),
     "union-array-nest": lambda d: T("typedef U = int" + R("[2]", d) + " | string;"),
@@ -644,6 +663,7 @@ AVOID_DEPTH = {
     "ternary-mid": {"asan": 1000, "plain": 10000},          # C10-ternary-swallows-nesting-error
     "x-ternary-mid": {"asan": 1000, "plain": 5000},
     "struct-self-nest": {"asan": 1000, "plain": 1000},      # C10-struct-chain-superlinear
+    "struct-diamond": {"asan": 12, "plain": 14},            # C10-struct-diamond-exponential
     "enum-members-wide": {"asan": 10000, "plain": 30000},   # C10-lexer-copy-quadratic (and a linear member search per member)
     "switch-cases-wide": {"asan": 5000, "plain": 20000},
     "match-arms-wide": {"asan": 5000, "plain": 20000},
@@ -653,6 +673,9 @@ AVOID_DEPTH = {
     "x-flat-lt": {"asan": 15000, "plain": 50000},
     "x-string-grow": {"asan": 20000, "plain": 50000},       # the sanitised build keeps every freed string (quarantine)
     "cast-generic": {"asan": 5000, "plain": 15000},         # C10-lexer-copy-quadratic: two lexer copies + a type instantiation per cast
+    "cast-long-int": {"plain": 60000},                      # C10-lexer-copy-quadratic: a lexer copy (= the whole source) per open cast probe; at the
+    "cast": {"plain": 70000},                               # size cap (400 KB) the plain build reaches the 3 GiB address-space limit of the campaign
+    "cast-paren": {"plain": 80000},                         # BEFORE the stack guard: bad_alloc (exit 1) or, now and then, SIGSEGV in the failing allocation
     "interp": {"asan": 20000, "plain": 50000},              # C10-source-line-copy-quadratic: a string literal cannot be broken into lines
     "interp-fmt": {"asan": 15000, "plain": 40000},
     "x-interp-many": {"asan": 20000, "plain": 50000},
@@ -776,6 +799,20 @@ ALLOC_EDGE = [
     "void main() { string s = \"\"; println(s[0]); }\n",
     "void main() { char c = 'a'; int x = c + 2147483647; println(x); }\n",
     "void main() { int x = 2147483647; x++; println(x); }\n",
+    # since 84c6f60 / b283959 (former findings C10-incdec-long-overflow-ub, C10-global- / C10-member-array-dims-int-overflow)
+    "void main() { long x = 9223372036854775807; x++; println(x); }\n",
+    "void main() { long x = 0 - 9223372036854775807 - 1; x--; println(x); }\n",
+    "void main() { long x = 9223372036854775807; ++x; println(x); long y = 0 - 9223372036854775807 - 1; --y; println(y); }\n",
+    "void main() { long[2] q = [9223372036854775807, 0 - 9223372036854775807 - 1]; q[0]++; q[1]--; println(q[0]); println(q[1]); }\n",
+    "struct S { long v; };\nvoid main() { S s; s.v = 9223372036854775807; s.v++; println(s.v); }\n",
+    "void main() { unsigned long x = 0; x--; println(x); }\n",
+    "int[65536][65536] gq;\nvoid main() { println(1); }\n",
+    "int[46341][46341] gq;\nvoid main() { println(1); }\n",
+    "long[65536][32768] gq;\nvoid main() { println(1); }\n",
+    "const int N = 65536;\nint[N][N] gq;\nvoid main() { println(1); }\n",
+    "struct M { int[65536][65536] v; };\nvoid main() { M m; println(1); }\n",
+    "struct M { int[1024][1024][1024] v; int w; };\nvoid main() { M m; println(1); }\n",
+    "struct M { int[65536][65536] v; };\nM gm;\nvoid main() { println(1); }\n",
     "void main() { long x = 0 - 9223372036854775807 - 1; println(-x); }\n",
     "void main() { long x = 0 - 9223372036854775807 - 1; println(x / -1); }\n",
     "void main() { long x = 0 - 9223372036854775807 - 1; println(x % -1); }\n",
@@ -795,15 +832,10 @@ ALLOC_EDGE = [
 ]
 
 
-INCDEC_LIMITS = ("9223372036854775807", "(0 - 9223372036854775807 - 1)")
-
-
 def edge_case(rng):
     form = rng.choice(EDGE_FORMS)
     t = rng.choice(EDGE_TYPES) if rng.random() < 0.5 else "long"
-    a, b = rng.choice(EDGE_VALS), rng.choice(EDGE_VALS)
-    if "a++" in form and a in INCDEC_LIMITS:
-        a = "-9223372036854775807"     # avoid C10-incdec-long-overflow-ub: ++ / -- of a long at the end of its range
+    a, b = rng.choice(EDGE_VALS), rng.choice(EDGE_VALS)      # ++ / -- at the ends of the 64-bit range included (fixed by 84c6f60)
     return form.format(t=t, a=a, b=b, op=rng.choice(EDGE_OPS))
 
 
@@ -842,8 +874,21 @@ def _blocks(text):
     return res
 
 
+def _leaf_alive(leaf, name, sources):
+    """the leaf cache is shared and pruned by age (directories older than an hour when more than 30 exist - dozens of mutant runs
+    create that many): keep the directory in use recent, and build the driver again if another run removed it meanwhile"""
+    try:
+        os.utime(os.path.dirname(leaf), None)
+    except OSError:
+        pass
+    if not os.path.exists(leaf):
+        leaf = common.build_leaf(name, sources)
+    return leaf
+
+
 def lex_both(inputs, leaf, names):
     """-> list of (model_tokens, impl_tokens); tokens are 'NAME hexvalue' strings (impl: 'LOOP' / 'HANG' markers)."""
+    leaf = _leaf_alive(leaf, "c10_lexdump", ["src/frontend/recursive_parser/recursive_lexer.cpp"])
     data = ("\n".join(x.hex() for x in inputs) + "\n").encode()
     rc, mo, me = common.sh([common.model_bin(PROP), "lex"], input=data, timeout=900)
     if rc != 0:
@@ -993,7 +1038,8 @@ def unmodelled_expr(toks):
     """shapes ExprParse.v answers Err for because the construct is outside the model (method call, chained call,
     array literal = a '[' in operand position)"""
     for i, t in enumerate(toks):
-        if t == "[" and (i == 0 or not (toks[i - 1][0].isalnum() or toks[i - 1][0] == "_" or toks[i - 1] in (")", "]"))):
+        if t == "[" and (i == 0 or toks[i - 1] in ("try", "checked", "await")     # a prefix KEYWORD is no operand: `await [ ]` is an array literal
+                         or not (toks[i - 1][0].isalnum() or toks[i - 1][0] == "_" or toks[i - 1] in (")", "]"))):
             return True
     for i in range(len(toks) - 1):
         if toks[i] in (")", "]") and toks[i + 1] == "(":
@@ -1060,6 +1106,446 @@ def model_lines(sub, lines):
     return res
 
 
+# ------------------------------------------------------------------ declaration-level tables: typedef_map_ & co
+# (leaf driver harness/cpp/c10_typedefs.cpp = the repository's parser, vs the extracted model coq/C10/Typedefs.v)
+TD_POOL = ["A", "B", "C", "D", "E", "T", "U"]
+TD_PRIMS = ["int", "long", "short", "tiny", "bool", "string", "char"]
+TD_BUILTIN = {"SD": {"Future"}, "ED": {"Option", "Result", "RuntimeError"}, "UD": set(), "ID": set()}   # registered by the parser's constructor
+N_TD_QUICK, N_TD_THOROUGH = 1500, 30000
+N_DECL_QUICK, N_DECL_THOROUGH = 140, 3000
+
+
+def td_leaf_sources():
+    """every parser source of the CURRENT tree + what they link against (no interpreter)"""
+    import glob
+    rel = lambda p: os.path.relpath(p, common.REPO)
+    src = [rel(p) for p in sorted(glob.glob(os.path.join(common.REPO, "src/frontend/recursive_parser/*.cpp")))]
+    src += [rel(p) for p in sorted(glob.glob(os.path.join(common.REPO, "src/frontend/recursive_parser/parsers/*.cpp")))]
+    src += [rel(p) for p in sorted(glob.glob(os.path.join(common.REPO, "src/common/*.cpp")))]
+    src += ["src/backend/interpreter/core/error_handler.cpp", "src/platform/native/native_stdio_output.cpp",
+            "src/platform/baremetal/baremetal_uart_output.cpp"]
+    return src
+
+
+def td_decl_text(d):
+    k = d[0]
+    if k == "tstruct":
+        return "typedef struct %s { int x; } %s;" % (d[1], d[2])
+    if k == "tanon":
+        return "typedef struct { int x; } %s;" % d[1]
+    if k == "tenum":
+        return "typedef enum { P%s, Q%s } %s;" % (d[1], d[1], d[1])
+    if k == "tprim":
+        return "typedef %s %s;" % (d[1], d[2])
+    if k == "talias":
+        return "typedef %s %s;" % (d[1], d[2])
+    if k == "teq":
+        return "typedef %s = %s;" % (d[1], d[2])
+    if k == "tunion":
+        return "typedef %s = int | string;" % d[1]
+    if k == "struct":
+        return "struct %s { int x; };" % d[1]
+    if k == "fwd":
+        return "struct %s;" % d[1]
+    if k == "enum":
+        return "enum %s { R%s, S%s };" % (d[1], d[1], d[1])
+    if k == "fptr":
+        return "typedef int (*%s)(int);" % d[1]
+    if k == "iface":
+        return "interface %s { int m(); };" % d[1]
+    if k == "gvar":
+        return "%s gv%d;" % (d[1], d[2])
+    raise ValueError(k)
+
+
+_TD_TAG = {"tstruct": "ts", "tanon": "ta", "tenum": "te", "tprim": "tp", "talias": "tl", "teq": "tq", "tunion": "tu", "struct": "st", "fwd": "st",
+           "enum": "en", "fptr": "fp", "iface": "if", "gvar": "gv"}
+
+
+def td_text(prog):
+    return "\n".join(td_decl_text(d) for d in prog) + "\n"
+
+
+def td_line(prog, queries):
+    """the same declarations in the protocol of `c10_model typedefs`"""
+    ws = []
+    for d in prog:
+        args = [str(a) for a in d[1:]] if d[0] != "gvar" else [d[1]]
+        ws.append(":".join([_TD_TAG[d[0]]] + args))
+    return " ".join(ws) + " | " + ",".join(queries)
+
+
+def td_random_decl(rng, pool, i):
+    n = lambda: rng.choice(pool)
+    r = rng.random()
+    if r < 0.30:
+        return ("tstruct", n(), n())
+    if r < 0.36:
+        return ("tanon", n())
+    if r < 0.42:
+        return ("tenum", n())
+    if r < 0.50:
+        return ("tprim", rng.choice(TD_PRIMS + ["float", "double", "void"]) + "".join("[%d]" % rng.randint(1, 3) for _ in range(rng.choice([0, 0, 1, 2]))), n())
+    if r < 0.70:
+        return ("talias", n(), n())
+    if r < 0.74:
+        return ("teq", n(), rng.choice(TD_PRIMS))
+    if r < 0.78:
+        return ("tunion", n())
+    if r < 0.84:
+        return ("struct", n())
+    if r < 0.86:
+        return ("fwd", n())
+    if r < 0.90:
+        return ("enum", n())
+    if r < 0.93:
+        return ("fptr", n())
+    if r < 0.95:
+        return ("iface", n())
+    return ("gvar", n(), i)
+
+
+def td_case(rng):
+    """(query names, declarations).  Half of the cases are DIRECTED at the case split of the chain walk: a cycle of length 1..4 in
+    typedef_map_ (only  typedef struct TAG {..} ALIAS;  stores ALIAS -> TAG unflattened, so the cycle is made of those, in any order),
+    entered from outside by one or two tails (an unflattened  typedef struct <cycle name> {..} TAIL;  or a flattened
+    typedef <cycle name> TAIL;  taken at a random moment, possibly before the cycle closes), noise declarations that re-declare
+    names in between, and uses (global variable, typedef base) of cycle and tail names.  The rest: free sequences over a small pool."""
+    if rng.random() < 0.5:
+        L = rng.choice([1, 2, 2, 3, 3, 4])
+        names = rng.sample(TD_POOL, min(len(TD_POOL), L + rng.randint(1, 3)))
+        cyc, rest = names[:L], names[L:]
+        edges = [("tstruct", cyc[(i + 1) % L], cyc[i]) for i in range(L)]
+        rng.shuffle(edges)
+        prog = list(edges)
+        prev = None
+        for t in rest[:rng.randint(1, 2)]:
+            target = prev if (prev and rng.random() < 0.4) else rng.choice(cyc)
+            tail = ("tstruct", target, t) if rng.random() < 0.55 else ("talias", target, t)
+            prog.insert(rng.randint(0, len(prog)), tail)
+            prev = t
+        for i in range(rng.choice([0, 0, 1, 2, 3])):
+            prog.insert(rng.randint(0, len(prog)), td_random_decl(rng, names, 10 + i))
+        for i in range(rng.choice([0, 1, 1, 2])):
+            nm = rng.choice(names)
+            prog.append(("gvar", nm, 20 + i) if rng.random() < 0.5 else ("talias", nm, rng.choice(names + ["Z"])))
+        return names + (["Z"] if any(d[0] == "talias" and d[2] == "Z" for d in prog) else []), prog
+    pool = rng.sample(TD_POOL, rng.randint(2, 5))
+    return pool, [td_random_decl(rng, pool, i) for i in range(rng.randint(1, 9))]
+
+
+def td_exhaustive(maxlen):
+    """all declaration sequences of length <= maxlen over 30 declarations on three names"""
+    names = ["A", "B", "C"]
+    alpha = ([("tstruct", a, b) for a in names for b in names] + [("talias", a, b) for a in names for b in names]
+             + [("tanon", a) for a in names] + [("tprim", "int", a) for a in names] + [("struct", a) for a in names] + [("tenum", a) for a in names])
+    out, level = [], [[]]
+    for _ in range(maxlen):
+        level = [p + [d] for p in level for d in alpha]
+        out += level
+    return [(names, p) for p in out]
+
+
+def _td_blocks(text):
+    res, cur = [], {}
+    for l in text.split("\n"):
+        if l == "END":
+            res.append(cur)
+            cur = {}
+            continue
+        p = l.split(" ")
+        if p[0] == "ERR":
+            cur["err"] = p[1] if len(p) > 1 else "-"
+        elif p[0] == "MAP":
+            cur["map"] = p[1] if len(p) > 1 else ""
+        elif p[0] in ("SD", "ED", "UD", "ID"):
+            cur[p[0]] = sorted(set(x for x in (p[1].split(",") if len(p) > 1 else []) if x) - TD_BUILTIN[p[0]])
+        elif p[0] == "R":
+            cur.setdefault("R", {})[p[1]] = p[2] if len(p) > 2 else "-"
+        elif p[0] == "DEAD":
+            cur["dead"] = p[1] if len(p) > 1 else "?"
+        elif p[0] == "SELFALIAS":
+            cur["selfalias"] = p[1:] and p[1] == "1"
+    return res
+
+
+def _unhex(h):
+    return "" if h in ("-", "") else bytes.fromhex(h).decode("latin-1")
+
+
+def td_model(cases):
+    lines = [td_line(prog, qs) for qs, prog in cases]
+    rc, o, e = common.sh([common.model_bin(PROP), "typedefs"], input=("\n".join(lines) + "\n").encode(), timeout=900)
+    if rc != 0:
+        raise RuntimeError("c10_model typedefs failed rc=%d: %s" % (rc, e[-400:]))
+    b = _td_blocks(o)
+    if len(b) != len(cases):
+        raise RuntimeError("c10_model typedefs: %d blocks for %d cases" % (len(b), len(cases)))
+    return b
+
+
+def td_leaf_run(leaf, items, cpu=1):
+    """items: [(source text, query names)] -> blocks; the leaf forks one child per case (CPU limit `cpu` s)"""
+    if os.path.basename(leaf).startswith("c10_typedefs-"):
+        leaf = _leaf_alive(leaf, "c10_typedefs", td_leaf_sources())
+    def chunk(part):
+        data = "".join("%s %s\n" % (src.encode("latin-1").hex(), ",".join(qs)) for src, qs in part).encode()
+        try:
+            rc, o, e = common.sh([leaf, str(cpu)], input=data, timeout=300 + 5 * cpu * len(part))
+        except Exception:
+            rc, o = -1, ""
+        b = _td_blocks(o)
+        if rc != 0 or len(b) != len(part):
+            # only the child's CPU limit decides "does not end" (DEAD lines); a failed DRIVER run (wall time-out on a loaded machine) is
+            # retried one case at a time and, failing that, skipped
+            b = []
+            for src, qs in part:
+                one = None
+                for _ in range(2):
+                    try:
+                        rc1, o1, e1 = common.sh([leaf, str(cpu)], input=("%s %s\n" % (src.encode("latin-1").hex(), ",".join(qs))).encode(),
+                                                timeout=300 + 10 * cpu)
+                    except Exception:
+                        continue
+                    b1 = _td_blocks(o1)
+                    if rc1 == 0 and len(b1) == 1:
+                        one = b1[0]
+                        break
+                b.append(one if one is not None else {"skip": True})
+        for x in b:
+            e0 = _unhex(x.get("err", "-"))
+            x["err"] = ("-" if not e0 else "UT:" + e0[len("Unknown typedef type: "):] if e0.startswith("Unknown typedef type: ")
+                        else "UK:" + e0[len("Unknown type: "):] if e0.startswith("Unknown type: ")
+                        else "SR" if e0.startswith("Self-recursive struct member") else "CR" if e0.startswith("Circular reference detected")
+                        else "OTHER:" + e0)
+        return b
+    parts = [items[i:i + 120] for i in range(0, len(items), 120)]
+    out, dead = [], 0
+    for k in range(0, len(parts), 16):
+        if dead > 200:
+            # a tree on which the walk (or the parser) never ends costs `cpu` seconds per case: enough of them have been seen
+            out += [{"skip": True}] * sum(len(pt) for pt in parts[k:])
+            break
+        for b in common.pmap(chunk, parts[k:k + 16]):
+            dead += sum(1 for x in b if x.get("dead"))
+            out += b
+    return out
+
+
+# ---- struct declarations with value / pointer / array members of struct type (coq/C10/StructGraph.v: sg_run, detect)
+SG_POOL = ["A", "B", "C", "D"]
+_SG_SUFFIX = {"v": "%s m%d;", "p": "%s* m%d;", "a": "%s[2] m%d;"}
+
+
+def sg_case(rng):
+    """struct declarations over four names: forward declarations, definitions whose members are structs of the pool by value, pointer
+    or array (self-reference, mutual reference through forward declarations, re-definition that closes a cycle, diamonds)"""
+    pool = SG_POOL[:rng.randint(2, 4)]
+    prog = []
+    if rng.random() < 0.35:
+        # directed: a cycle of 2..3 structs closed through value / array / pointer members, in any order, with or without forward
+        # declarations (a cycle of VALUE members is the parser's business - detectCircularReference; one through ARRAY members is left
+        # to the interpreter's own check when a variable is created)
+        cyc = rng.sample(pool, rng.randint(2, min(3, len(pool))))
+        for n in cyc:
+            if rng.random() < 0.3:
+                prog.append(("sf", n))
+        defs = [("sd", cyc[i], [(cyc[(i + 1) % len(cyc)], rng.choice("vaaap"))] + [(rng.choice(pool + ["int"]), rng.choice("vpa")) for _ in range(rng.choice([0, 0, 1]))])
+                for i in range(len(cyc))]
+        rng.shuffle(defs)
+        prog += defs
+    for _ in range(rng.randint(0 if prog else 1, 5)):
+        if rng.random() < 0.15:
+            prog.append(("sf", rng.choice(pool)))
+        else:
+            n = rng.choice(pool)
+            others = [x for x in pool if x != n] + ["int"]
+            ms = [(n if rng.random() < 0.12 else rng.choice(others), rng.choice("vvvvpaa")) for _ in range(rng.choice([0, 1, 1, 2, 2, 3]))]
+            prog.append(("sd", n, ms or [("int", "v")]))
+    return pool, prog
+
+
+def sg_text(prog):
+    out = []
+    for d in prog:
+        if d[0] == "sf":
+            out.append("struct %s;" % d[1])
+        else:
+            out.append("struct %s { %s };" % (d[1], " ".join(_SG_SUFFIX[k] % (t, i) for i, (t, k) in enumerate(d[2]))))
+    return "\n".join(out) + "\n"
+
+
+def sg_line(prog):
+    return " ".join("sf:%s" % d[1] if d[0] == "sf" else "sd:%s:%s" % (d[1], ",".join("%s.%s" % (t, k) for t, k in d[2])) for d in prog)
+
+
+def sg_model(cases):
+    rc, o, e = common.sh([common.model_bin(PROP), "structs"], input=("\n".join(sg_line(pg) for _, pg in cases) + "\n").encode(), timeout=900)
+    b = _td_blocks(o)
+    if rc != 0 or len(b) != len(cases):
+        raise RuntimeError("c10_model structs failed rc=%d (%d blocks for %d cases): %s" % (rc, len(b), len(cases), e[-400:]))
+    return b
+
+
+TD_KEYS = ("err", "map", "SD", "ED", "UD", "ID", "R")
+
+
+def td_diff(m, i):
+    if i.get("skip"):
+        return []
+    d = [k for k in TD_KEYS if m.get(k) != i.get(k)]
+    if i.get("dead"):
+        d.append("dead")
+    return d
+
+
+def td_show(b):
+    return {"err": b.get("err"), "typedef_map": {kv.split("=")[0]: _unhex(kv.split("=")[1]) for kv in b.get("map", "").split(";") if "=" in kv},
+            "structs": b.get("SD"), "enums": b.get("ED"), "unions": b.get("UD"), "interfaces": b.get("ID"),
+            "resolve": {k: _unhex(v) for k, v in b.get("R", {}).items()}, "dead": b.get("dead")}
+
+
+def td_exec_program(prog, queries, mblock):
+    """the declarations + a main that declares a local of every name that resolves (executed: the interpreter's own typedef table,
+    TypeManager::resolve_typedef).  None when the avoidance predicate of C10-backend-typedef-self-alias-recursion holds: a
+    typedef BASE ALIAS; whose flattened value is ALIAS itself (SELFALIAS line of the model driver)."""
+    if mblock.get("selfalias"):
+        return None
+    body = " ".join("%s lv%d;" % (q, k) for k, q in enumerate(queries) if mblock.get("R", {}).get(q, "-") != "-")
+    return (td_text([d for d in prog]) + "void main() { %s println(1); }\n" % body).encode()
+
+
+# ------------------------------------------------------------------ declaration-level programs for the robustness oracle (real binary)
+DECL_POOL = ["A", "B", "C", "D", "T", "U", "V"]
+
+
+def _dtype(rng, n):
+    return rng.choice(["%s", "%s", "%s", "%s*", "%s[2]", "struct %s", "Bx<%s>", "%s**", "const %s", "%s&"]) % n
+
+
+def _members(rng, pool):
+    out = []
+    for i in range(rng.choice([0, 1, 1, 2, 3])):
+        t = rng.choice(["int", "string", "long", "bool", "int[3]", "int*"]) if rng.random() < 0.35 else _dtype(rng, rng.choice(pool))
+        out.append("%s m%d;" % (t, i))
+    return " ".join(out) or "int x;"
+
+
+def decl_form(rng, pool, i):
+    n = lambda: rng.choice(pool)
+    r = rng.random()
+    if r < 0.17:
+        return "typedef struct %s { %s } %s;" % (n(), _members(rng, pool), n())
+    if r < 0.21:
+        return "typedef struct { %s } %s;" % (_members(rng, pool), n())
+    if r < 0.33:
+        return "struct %s { %s };" % (n(), _members(rng, pool))
+    if r < 0.37:
+        return "struct %s;" % n()
+    if r < 0.41:
+        return "struct %s<T> { T v; %s };" % (n(), _members(rng, pool))
+    if r < 0.55:
+        base = n() if rng.random() < 0.75 else rng.choice(TD_PRIMS) + rng.choice(["", "[2]", "[2][3]", "*"])
+        return "typedef %s %s;" % (base, n())
+    if r < 0.62:
+        vals = [rng.choice(pool + TD_PRIMS + ["1", "2", "\"s\"", "int[2]"]) for _ in range(rng.randint(1, 4))]
+        return "typedef %s = %s;" % (n(), " | ".join(vals))
+    if r < 0.70:
+        return rng.choice(["enum %s { P%d, Q%d };" % (n(), i, i), "typedef enum { P%d, Q%d } %s;" % (i, i, n()),
+                           "enum %s<T> { X%d(T), Y%d };" % (n(), i, i)])
+    if r < 0.74:
+        return "typedef %s (*%s)(%s);" % (rng.choice(["int", "void", n()]), n(), rng.choice(["int", n(), "%s, int" % n(), ""]))
+    if r < 0.80:
+        return "interface %s { %s m%d(%s p); };" % (n(), rng.choice(["int", "void", n()]), i, rng.choice(["int", n()]))
+    if r < 0.87:
+        return rng.choice(["impl %s for %s { int m%d(int p) { return 1; } };" % (n(), n(), i), "impl %s { self() { } };" % n(),
+                           "impl %s { static int c%d = 1; };" % (n(), i)])
+    if r < 0.92:
+        return rng.choice(["%s g%d;", "%s* g%d;", "const %s g%d = 1;", "%s[2] g%d;"]) % (n(), i)
+    if r < 0.97:
+        return "%s f%d(%s p) { %s l; return l; }" % (n(), i, _dtype(rng, n()), n())
+    return "export " + decl_form(rng, pool, i + 50)
+
+
+DECL_USES = [
+    "{N} gu;", "{N}* gp;", "{N}[2] ga;", "{N} fu({N} p) {{ {N} l; return l; }}", "void fv({N}* p, {N}[2] q) {{ }}", "typedef {N} Zu;",
+    "typedef struct Wt {{ {N} m; }} Wa;", "struct Ws {{ {N} m; {N}* p; }};", "void main() {{ {N} v; }}", "void main() {{ {N}[2] w; {N}* p; }}",
+    "void main() {{ int x = 1; x = ({N})x; println(sizeof({N})); }}", "struct Bx<T> {{ T v; }};\nvoid main() {{ Bx<{N}> b; }}",
+    "impl {N} {{ self() {{ }} }};", "interface Iu {{ {N} m({N} p); }};", "typedef Uu = {N} | int;", "void main() {{ {N} v = {N}::P0; }}",
+    "typedef int (*Fu)({N});", "{N} gz = {{1}};", "struct Wg<T> {{ {N} m; T v; }};\nWg<{N}> gw;", "void main() {{ {N} v; v.x = 1; println(v.x); }}",
+]
+
+
+def decl_programs(rng):
+    """[(label, bytes, files)] : one random (mostly malformed) declaration sequence over a small name pool - tags, aliases, struct / enum /
+    union / interface names re-used for each other, re-declared, self-referencing, cyclic - followed by uses of EVERY name of the pool,
+    one program per (name, use form) because the first diagnostic ends the parse; plus import shapes (cycles of modules of length 1..4)."""
+    pool = rng.sample(DECL_POOL, rng.choice([2, 3, 3, 4, 4, 5]))
+    out = []
+    if rng.random() < 0.12:
+        # import cycles: the input is module `t`; modules m1..mL next to it; the cycle may or may not go through t
+        L = rng.randint(1, 4)
+        mods = ["m%d" % k for k in range(1, L + 1)]
+        through_main = rng.random() < 0.5
+        files = {}
+        for k, m in enumerate(mods):
+            nxt = mods[(k + 1) % L] if not (through_main and k == L - 1) else "t"
+            body = "\n".join("export " + decl_form(rng, pool, 10 * k + j) for j in range(rng.randint(0, 2)))
+            files[m + ".cb"] = "import %s;\n%s\nexport int f%s() { return %d; }\n" % (nxt, body, m, k)
+        if L == 1 and through_main:
+            src = "import t;\nvoid main() { println(1); }\n"
+            files = {}
+        else:
+            src = "import %s;\n%s\nvoid main() { println(1); }\n" % (mods[0], decl_form(rng, pool, 90))
+        out.append(("import-cycle:%d%s" % (L, ":via-main" if through_main else ""), src.encode(), files))
+        return out
+    decls = [decl_form(rng, pool, i) for i in range(rng.randint(1, 8))]
+    if rng.random() < 0.5:
+        # directed: close a typedef cycle among the pool and hang a tail on it (the case split of resolveTypedefChain)
+        L = rng.randint(1, min(4, len(pool) - 1)) if len(pool) > 1 else 1
+        cyc = pool[:L]
+        edges = ["typedef struct %s { %s } %s;" % (cyc[(i + 1) % L], _members(rng, pool) if rng.random() < 0.3 else "int x;", cyc[i]) for i in range(L)]
+        tail = pool[L] if len(pool) > L else cyc[0]
+        edges.append(rng.choice(["typedef struct %s { int x; } %s;", "typedef %s %s;"]) % (rng.choice(cyc), tail))
+        for e in edges:
+            decls.insert(rng.randint(0, len(decls)), e)
+    head = "\n".join(decls) + "\n"
+    for nm in pool:
+        for u in rng.sample(DECL_USES, 4 if len(pool) <= 4 else 3):
+            out.append(("use:%s" % nm, (head + u.format(N=nm) + "\n" + ("" if "main()" in u else "void main() { }\n")).encode(), None))
+    allu = "\n".join("%s ga%d;" % (nm, k) for k, nm in enumerate(pool))
+    out.append(("all", (head + allu + "\nvoid main() { " + " ".join("%s lv%d;" % (nm, k) for k, nm in enumerate(pool)) + " println(1); }\n").encode(), None))
+    out.append(("none", (head + "void main() { println(1); }\n").encode(), None))
+    return out
+
+
+_ARR_TD = re.compile(rb"typedef\s+[A-Za-z_]\w*\s*(?:\[\w*\]\s*)+([A-Za-z_]\w*)\s*;")
+_PLAIN_TD = re.compile(rb"typedef\s+([A-Za-z_]\w*)\s+([A-Za-z_]\w*)\s*;")
+
+
+def trips_nested_array_typeinfo(data):
+    """avoid C10-nested-array-typeinfo-enum-ub: an ARRAY of a typedef name that itself stands for an array type (typedef bool[3] B; ... B[2] m;)
+    - the name of an array typedef, or a plain alias of one, directly followed by '['"""
+    names = set(_ARR_TD.findall(data))
+    grew = True
+    while grew:
+        grew = False
+        for b, a in _PLAIN_TD.findall(data):
+            if b in names and a not in names:
+                names.add(a)
+                grew = True
+    return any(re.search(rb"\b" + re.escape(n) + rb"\s*\[", data) for n in names)
+
+
+_SELF_ALIAS = re.compile(rb"typedef\s+([A-Za-z_]\w*)\s+\1\s*;")
+
+
+def decl_exec_ok(data):
+    """avoid C10-backend-typedef-self-alias-recursion in the EXECUTED copy of a declaration program: a literal  typedef X X;
+    (the flattened variants typedef A B; typedef B A; cannot be seen in the text - they are tolerated by signature on the sanitised build)"""
+    return _SELF_ALIAS.search(data) is None
+
+
 # ------------------------------------------------------------------ shrinking
 def shrink_bytes(data, still_bad, budget=60):
     """delta debugging on the token list (chunks, then single tokens)"""
@@ -1109,6 +1595,7 @@ def run(rep):
             rep.violation("coqchk", {"output": axioms[-3000:]}, "coqchk rejects the compiled development", True)
     common.ensure_model(PROP)
     leaf = common.build_leaf("c10_lexdump", ["src/frontend/recursive_parser/recursive_lexer.cpp"])
+    tdleaf = common.build_leaf("c10_typedefs", td_leaf_sources())
     asan = common.build_impl("asan")
     plain = common.build_impl("plain")
     rep.coverage["builds_wall_s_incl_lock_wait"] = round(time.time() - t_stage - rep.coverage["coq_wall_s_incl_lock_wait"], 1)
@@ -1193,6 +1680,9 @@ def run(rep):
         CPU limit of run_case"""
         if c[3] != "parse" or c[0] in ("amplify-deep", "amplify-exec", "amplify-stacklimit") or n > 4 * MAX_BYTES:
             return None
+        if c[0] == "decl" and c[1].startswith("import-cycle"):
+            return None       # a cycle of modules is re-parsed until the stack guard ends it (about 5 000 parsers for a 40-byte file, < 1 s
+                              # on the plain build): bounded by the guard, not by the input - only the 10 s limit applies
         return suspect(n) * (3 if c[5] else 1)
     rep.coverage["timing"] = {"reference": "median CPU / size of the %d unmodified repository files, sanitised build, this run" % len(base),
                               "ref_cpu_s": round(ref_cpu, 4), "ref_bytes": ref_bytes, "suspicious_above": "20 x ref_cpu x max(1, n / ref_bytes)",
@@ -1282,6 +1772,40 @@ def run(rep):
     for k in range(800 if quick else 12000):
         kind, d = soup(rng_for(seed, "c10-soup", k))
         cases.append((kind, "", d, "parse", [], False))
+    # declaration-level programs: typedef / struct / enum / union / interface / impl declarations that reuse names between tags and
+    # aliases, re-declare, self-reference and form cycles, each followed by uses of every name; import cycles (modules next to the input)
+    for k in range(N_DECL_QUICK if quick else N_DECL_THOROUGH):
+        for j, (label, data, files) in enumerate(decl_programs(rng_for(seed, "c10-decl", k))):
+            if trips_nested_array_typeinfo(data + b"".join(v.encode() for v in (files or {}).values())):
+                continue
+            x = {"build": "plain" if (files or (k + j) % 4) else "asan"}
+            if files:
+                x["files"] = files
+            if label.startswith("import-cycle"):
+                x["stack"] = STACK_LIMITS[0]     # avoid C10-import-cycle-diagnostic-flood: with a 2 MiB stack limit the stack guard ends the
+                                                 # chain of nested parsers after ~1 100 modules (14 MB of diagnostics), not ~5 200 (290 MB)
+            cases.append(("decl", label, data, "parse", [], False, x))
+            if label in ("all", "none") and decl_exec_ok(data):
+                cases.append(("decl-exec", label, data, "full", [], False, {"build": "asan"}))
+    # declaration sequences of the MODELLED fragment (coq/C10/Typedefs.v): the extracted model now, the repository's parser below;
+    # a sample of them is also executed (the interpreter's own typedef table)
+    td_cases = td_exhaustive(2 if quick else 3) + [td_case(rng_for(seed, "c10-td", k)) for k in range(N_TD_QUICK if quick else N_TD_THOROUGH)]
+    td_m = td_model(td_cases)
+    n_td_exec = 0
+    for (qs, prog), mb in list(zip(td_cases, td_m))[-(300 if quick else 4000):]:
+        src = td_exec_program(prog, qs, mb)
+        if src is not None:
+            n_td_exec += 1
+            cases.append(("td-exec", mb.get("err", "-"), src, "full", [], False, {"build": "plain"}))
+    # struct declarations of the modelled fragment (coq/C10/StructGraph.v); those the model accepts are also executed with a variable of
+    # every struct (the interpreter's own cycle check over value / array members, StructManager::validate..., and struct creation)
+    sg_cases = [sg_case(rng_for(seed, "c10-sg", k)) for k in range(800 if quick else 20000)]
+    sg_m = sg_model(sg_cases)
+    for (pool, prog), mb in list(zip(sg_cases, sg_m))[:(400 if quick else 5000)]:
+        if mb.get("err") == "-":
+            names = [n for n in mb.get("SD", [])]
+            cases.append(("sg-exec", "", (sg_text(prog) + "void main() { %s println(1); }\n" % " ".join("%s v%d;" % (n, k) for k, n in enumerate(names))).encode(),
+                          "full", [], False, {"build": "plain"}))
     # corpus of minimised past failures
     corpus = os.path.join(common.VERIF, "corpus", "c10.json")
     if os.path.exists(corpus):
@@ -1326,9 +1850,10 @@ def run(rep):
     # a hanging implementation must not stall the check: after 25 time-outs the remaining runs get 1 s of CPU
     hung = {"n": 0}
 
-    def guarded(data, mode, args, big, build="asan", stack=None):
+    def guarded(data, mode, args, big, build="asan", stack=None, files=None):
         slow = hung["n"] > 25
-        r = run_case(asan if build == "asan" else plain, data, mode, args, big, cpu=1 if slow else 10, wall=20 if slow else 300, stack=stack)
+        r = run_case(asan if build == "asan" else plain, data, mode, args, big, cpu=1 if slow else 10, wall=20 if slow else 300, stack=stack,
+                     files=files)
         if r["killed"] or r["rc"] in (-24, -25, -9):
             hung["n"] += 1
         return r
@@ -1347,7 +1872,7 @@ def run(rep):
     def run_one(c):
         x = extra(c)
         data, d = case_data(c)
-        r = guarded(data, c[3], c[4], c[5], x.get("build", "asan"), x.get("stack"))
+        r = guarded(data, c[3], c[4], c[5], x.get("build", "asan"), x.get("stack"), x.get("files"))
         r["nbytes"] = len(data)
         r["depth"] = d
         if c[2] is None:
@@ -1493,6 +2018,118 @@ def run(rep):
     rep.coverage["expr_verdicts_compared"] = ex_cmp
     rep.coverage["expr_verdicts_skipped_unmodelled"] = ex_skip
 
+    # ---- declaration-level tables: the repository's parser (leaf driver) vs the extracted model, table for table
+    t_td = time.time()
+    td_i = td_leaf_run(tdleaf, [(td_text(pg), qs) for qs, pg in td_cases])
+    evaluations += len(td_cases)
+    hist["typedef-tables"] = len(td_cases)
+
+    def td_shape(mb):
+        """(has a cycle of length >= 2, some query name runs INTO a cycle that does not contain it)"""
+        m = {kv.split("=")[0]: _unhex(kv.split("=")[1]) for kv in mb.get("map", "").split(";") if "=" in kv}
+        cyc = rho = False
+        for s0 in mb.get("R", {}):
+            seen, cur = [], s0
+            while cur in m and cur not in seen:
+                seen.append(cur)
+                cur = m[cur]
+            if cur in seen and len(seen) - seen.index(cur) >= 2:
+                cyc = True
+                if seen.index(cur) > 0:
+                    rho = True
+        return cyc, rho
+    shapes = [td_shape(mb) for mb in td_m]
+    td_bad = [(c, mb, ib) for c, mb, ib in zip(td_cases, td_m, td_i) if td_diff(mb, ib)]
+    rep.coverage["typedef_tables"] = {
+        "cases": len(td_cases), "exhaustive_sequences_up_to_length": 2 if quick else 3, "disagreements": len(td_bad),
+        "with_cycle_in_typedef_map": sum(1 for c, _ in shapes if c), "with_chain_entering_a_cycle_from_outside": sum(1 for _, r in shapes if r),
+        "rejected_unknown_typedef": sum(1 for mb in td_m if mb.get("err", "-").startswith("UT:")),
+        "rejected_unknown_type": sum(1 for mb in td_m if mb.get("err", "-").startswith("UK:")),
+        "accepted": sum(1 for mb in td_m if mb.get("err") == "-"), "executed": n_td_exec, "wall_s": round(time.time() - t_td, 1)}
+    k0 = next((k for k, (_, r) in enumerate(shapes) if r), 0)
+    samples.append({"stream": "typedef-tables", "program": td_text(td_cases[k0][1]), "model": td_show(td_m[k0])})
+    td_bad.sort(key=lambda b: (0 if b[2].get("dead") else 1, len(b[0][1])))
+    for (qs, prog), mb, ib in td_bad[:3]:
+        want_dead = bool(ib.get("dead"))
+
+        def both(pg):
+            m1 = td_model([(qs, pg)])[0]
+            i1 = td_leaf_run(tdleaf, [(td_text(pg), qs)])[0]
+            return m1, i1
+        changed = True
+        while changed and len(prog) > 1:
+            changed = False
+            for k in range(len(prog)):
+                cand = prog[:k] + prog[k + 1:]
+                m1, i1 = both(cand)
+                if td_diff(m1, i1) and bool(i1.get("dead")) == want_dead:
+                    prog, mb, ib, changed = cand, m1, i1, True
+                    break
+        concrete = None
+        if want_dead:
+            # the table walk of the CODE did not end: make it an input of the real binary (the declarations, then a use of each name)
+            for src in [td_text(prog)] + [td_text(prog) + "%s gq;\n" % q for q in qs]:
+                data = (src + "void main() { }\n").encode()
+                r = run_case(plain, data, "parse", cpu=5)
+                sg = signature(r)
+                if sg:
+                    concrete = (data, r, sg)
+                    break
+        payload = {"td_line": td_line(prog, qs), "td_source": td_text(prog), "queries": qs, "model": td_show(mb), "impl": td_show(ib),
+                   "differs_in": td_diff(mb, ib),
+                   "broken": "correspondence Typedefs.td_run / Typedefs.resolve = tables built by the declaration parsers / "
+                             "TypeUtilityParser::resolveTypedefChain (carrier of typedef_resolve_total, typedef_cycle_is_unknown_type)"}
+        if concrete:
+            payload.update({"source": show(concrete[0], 600), "source_hex": concrete[0].hex(), "mode": "parse", "build": "plain",
+                            "signature": concrete[2], "rc": concrete[1]["rc"], "cpu_s": round(concrete[1]["cpu"], 2),
+                            "demanded": "exit status 0 or 1 with a diagnostic; no signal, no hang"})
+        rep.violation("corr-typedefs", payload,
+                      "the repository's declaration parser and the proved table model disagree on %r (%s)%s" % (
+                          td_text(prog).replace("\n", " ")[:160], ", ".join(td_diff(mb, ib)),
+                          ("; the table walk of the code does not end (%s) - main on this input: %s" % (ib.get("dead"), concrete[2])) if concrete
+                          else ("; the table walk of the code died (%s)" % ib.get("dead")) if want_dead else ""),
+                      no_failing_input=not concrete)
+
+    # ---- struct value-member cycle check: the repository's parser vs StructGraph.sg_run (verdict and key set)
+    sg_i = td_leaf_run(tdleaf, [(sg_text(pg), []) for _, pg in sg_cases])
+    evaluations += len(sg_cases)
+    hist["struct-graph"] = len(sg_cases)
+    sg_bad = [(c, mb, ib) for c, mb, ib in zip(sg_cases, sg_m, sg_i)
+              if not ib.get("skip") and (mb.get("err") != ib.get("err") or mb.get("SD") != ib.get("SD") or ib.get("dead"))]
+    n_skip = sum(1 for ib in list(td_i) + list(sg_i) if ib.get("skip"))
+    if n_skip:
+        rep.notes.append("%d leaf-driver case(s) could not be decided (driver run failed twice) and were skipped" % n_skip)
+    rep.coverage["struct_graph"] = {"cases": len(sg_cases), "disagreements": len(sg_bad),
+                                    "self_recursive": sum(1 for mb in sg_m if mb.get("err") == "SR"),
+                                    "circular": sum(1 for mb in sg_m if mb.get("err") == "CR"), "accepted": sum(1 for mb in sg_m if mb.get("err") == "-")}
+    sg_bad.sort(key=lambda b: (0 if b[2].get("dead") else 1, len(b[0][1])))
+    for (pool, prog), mb, ib in sg_bad[:3]:
+        changed = True
+        while changed and len(prog) > 1:
+            changed = False
+            for k in range(len(prog)):
+                cand = prog[:k] + prog[k + 1:]
+                m1 = sg_model([(pool, cand)])[0]
+                i1 = td_leaf_run(tdleaf, [(sg_text(cand), [])])[0]
+                if (not i1.get("skip") and (m1.get("err") != i1.get("err") or m1.get("SD") != i1.get("SD") or i1.get("dead"))
+                        and bool(i1.get("dead")) == bool(ib.get("dead"))):
+                    prog, mb, ib, changed = cand, m1, i1, True
+                    break
+        data = (sg_text(prog) + "void main() { }\n").encode()
+        r = run_case(plain, data, "parse", cpu=5)
+        sg = signature(r)
+        payload = {"sg_line": sg_line(prog), "sg_source": sg_text(prog), "model": {"err": mb.get("err"), "structs": mb.get("SD")},
+                   "impl": {"err": ib.get("err"), "structs": ib.get("SD"), "dead": ib.get("dead")},
+                   "broken": "correspondence StructGraph.sg_run / detect = parseStructDeclaration / detectCircularReference "
+                             "(carrier of struct_cycle_check_total)"}
+        if sg:
+            payload.update({"source": show(data, 600), "source_hex": data.hex(), "mode": "parse", "build": "plain", "signature": sg,
+                            "rc": r["rc"], "demanded": "exit status 0 or 1 with a diagnostic; no signal, no hang"})
+        rep.violation("corr-structs", payload,
+                      "the repository's struct parser and the proved cycle-check model disagree on %r: model %s, code %s%s" % (
+                          sg_text(prog).replace("\n", " ")[:160], mb.get("err"), ib.get("err") or ib.get("dead"),
+                          ("; main on this input: " + sg) if sg else ""), no_failing_input=not sg)
+
     # ---------------- (4) failures of the oracle: known signature (tolerated stream leak) or VIOLATION
     def impl_of(x):
         return asan if x.get("build", "asan") == "asan" else plain
@@ -1506,7 +2143,7 @@ def run(rep):
 
     def fl_sig(fl, data):
         x = fl[8]
-        r2 = run_case(impl_of(x), data, fl[3], fl[4], fl[5], stack=x.get("stack"))
+        r2 = run_case(impl_of(x), data, fl[3], fl[4], fl[5], stack=x.get("stack"), files=x.get("files"))
         return signature(r2, case_bound(fl, len(data))), r2
 
     def same(a, b):
@@ -1527,7 +2164,7 @@ def run(rep):
     def alone(fl, data, times=3, cpu=30):
         x, best = fl[8], None
         for _ in range(times):
-            r2 = run_case(impl_of(x), data, fl[3], fl[4], fl[5], cpu=cpu, wall=40 * cpu, stack=x.get("stack"))
+            r2 = run_case(impl_of(x), data, fl[3], fl[4], fl[5], cpu=cpu, wall=40 * cpu, stack=x.get("stack"), files=x.get("files"))
             if best is None or r2["cpu"] < best["cpu"]:
                 best = r2
             if signature(r2) is not None:        # hang, crash ...: nothing to average
@@ -1565,6 +2202,19 @@ def run(rep):
             return "slow", det
         return None, det
 
+    def excused(c, sg0):
+        """signatures that are no failure of the property for this case - the SAME exclusions as in the pool loop above, applied to every
+        signature a re-run brings back (a big-allocation program that looked like a time-out under load re-measures as memory|rss-limit;
+        a listed repo-exec program that looked like a time-out re-measures as its listed sanitizer report)"""
+        if not sg0:
+            return False
+        if sg0.startswith("memory|") and c[3] == "full":
+            return True
+        if c[0] == "repo-exec" and c[1] in exec_baseline and (
+                sg0.startswith(exec_baseline[c[1]]) or (sg0 in ("timeout", "slow") and exec_baseline[c[1]] == "timeout")):
+            return True
+        return False
+
     rep.coverage["oracle_failures_before_remeasure"] = len(failures)
     kept, streak, dropped = [], 0, []
     for fl in failures:
@@ -1573,8 +2223,8 @@ def run(rep):
                 kept.append(fl)
                 continue
             s2, det = confirm_timing(fl)
-            if s2 is None:
-                dropped.append((fl[1] or fl[0], det))
+            if s2 is None or excused(fl, s2):
+                dropped.append((fl[1] or fl[0], det if s2 is None else {"re-measured_as": s2}))
                 streak = 0
                 continue
             streak += 1
@@ -1592,6 +2242,9 @@ def run(rep):
         by_sig.setdefault((fl[7], g["kind"] if g else ""), []).append(fl)
     reported = 0
     for (s, gk), fls in sorted(by_sig.items(), key=lambda kv: (0 if kv[0][1] else 1, -len(kv[1]))):
+        fls = [fl for fl in fls if not excused(fl, s)]
+        if not fls:
+            continue
         k = match_known(s, findings)
         if k is not None:
             rep.known(k["id"], k["what_fails"])
@@ -1599,8 +2252,26 @@ def run(rep):
             continue
         if reported >= 6:
             continue
-        reported += 1
         fls.sort(key=lambda x: x[6].get("nbytes", 0) if x[2] is None else len(x[2]))
+        if s not in ("slow", "timeout"):
+            # like the timing verdicts, a crash seen ONCE in the parallel campaign is a suspicion: it is reported when it shows again on a
+            # run of its own (a deep amplifier at the edge of the 3 GiB address-space limit dies with bad_alloc - exit 1 - or, depending
+            # on where the allocation fails, with SIGSEGV; 16 runs in flight decide which).  Up to 3 cases of the group, 2 re-runs each.
+            confirmed = None
+            for cand in fls[:3]:
+                for _ in range(2):
+                    s2, _r = fl_sig(cand, fl_data(cand))
+                    if same(s2, s) and not excused(cand, s2):
+                        confirmed = cand
+                        break
+                if confirmed:
+                    break
+            if confirmed is None:
+                rep.notes.append("%d case(s) with signature %s (%s) did not fail again when re-run alone (2 re-runs of up to 3 of them): not reported" % (
+                    len(fls), s, fls[0][1] or fls[0][0]))
+                continue
+            fls = [confirmed] + [f for f in fls if f is not confirmed]
+        reported += 1
         fl = fls[0]
         stream, label, data, mode, args, big, r, _, x = fl
         gen = x.get("gen")
@@ -1630,10 +2301,10 @@ def run(rep):
                 return fl_sig(fl, y)[0] == s
             small = shrink_bytes(data, still, 40 if quick else 150) if len(data) <= 20000 and s not in ("slow", "timeout") else data
             s2, r2 = (s, r) if s in ("slow", "timeout") else fl_sig(fl, small)
-            if s2 != s:
+            if s2 != s or excused(fl, s2):
                 small, r2 = data, r
         other = plain if impl_of(x) is asan else asan
-        ro = run_case(other, small, mode, args, big, stack=x.get("stack"))
+        ro = run_case(other, small, mode, args, big, stack=x.get("stack"), files=x.get("files"))
         payload = {"source": show(small, 600), "mode": mode, "args": args, "big_stack": big, "build": x.get("build", "asan"),
                    "stream": stream, "label": label, "signature": s, "rc": r2["rc"], "cpu_s": round(r2["cpu"], 3), "bytes": len(small),
                    "stderr": r2["err"][:1500], "rc_other_build": ro["rc"], "signature_other_build": signature(ro),
@@ -1642,6 +2313,8 @@ def run(rep):
                                "linearly with the input (reference: %.3f s for the median repository file in this run)" % ref_cpu}
         if x.get("stack"):
             payload["stack"] = x["stack"]
+        if x.get("files"):
+            payload["files"] = x["files"]
         if r.get("timing"):
             payload["timing"] = r["timing"]
         if gen:
@@ -1669,17 +2342,26 @@ def run(rep):
                 "file; token mutations (delete/duplicate/swap/insert/truncate, 1-6 edits); truncation at every token boundary of sampled files; "
                 "42 nesting amplifiers at depth 40/300 (default stack) and 600-2000 (1 GiB stack limit); raw bytes / ascii noise / keyword soup "
                 "<= 8 KiB; directive-only files with -D; println(<expr>); programs; generated CbCore programs executed fully. All on the "
-                "ASan+UBSan build of the current tree. distinct_nontrivial = distinct inputs (sha256) of at least 8 bytes and 3 different "
+                "ASan+UBSan build of the current tree. Declaration level: sequences of typedef / struct / enum / union / interface / impl "
+                "declarations over 2-5 names that reuse names between tags and aliases, re-declare, self-reference and close typedef cycles of "
+                "length 1-4 with a tail, each followed by uses of every name (one program per name and use form), import cycles of 1-4 modules "
+                "(plain build, every fourth on the sanitised one; the all-uses program also executed); the modelled fragments - typedef tables "
+                "(all sequences of <= 2 of 30 declarations on three names + random / cycle-directed ones) and struct value-member graphs - "
+                "through the leaf driver c10_typedefs.cpp (repository parser) against the extracted model, table for table, and executed. "
+                "distinct_nontrivial = distinct inputs (sha256) of at least 8 bytes and 3 different "
                 "blank-separated words for which the front end produced a diagnostic with exit 1 or accepted the program, plus distinct lexer "
                 "inputs whose token list has more than the EOF token.",
         "samples": samples[:8],
         "input_distribution": hist,
         "exhaustive": False,
-        "tested_not_proved": "memory safety / UB / termination of the compiled C++ (sanitizer campaign); statement and declaration parsers",
+        "tested_not_proved": "memory safety / UB / termination of the compiled C++ (sanitizer campaign); statement parsers; of the declaration "
+                             "parsers everything but the two table walks that are modelled (typedef chains, struct value-member cycles)",
     })
     rep.assumptions += [
         "the sanitizer half is a test: absence of reports on the explored inputs, not a proof about the C++",
-        "lexer, expression-ladder and preprocessor models are hand-written; they are tied to the code by the differential runs above",
+        "lexer, expression-ladder, preprocessor, typedef-table and struct-graph models are hand-written; they are tied to the code by the differential runs above",
+        "the typedef-table / struct-graph models cover declarations with fixed trivial bodies (int members, struct-typed members); the wider declaration "
+        "programs (members of alias type, generics, impl, imports) are only run under the robustness oracle",
         "CPU-time bound c*n is fitted on this run's unmodified repository files (machine-dependent constant)",
         "deep-nesting inputs (600-2000 levels) are run with the stack-size limit raised to 1 GiB; the default-stack overflow is a recorded finding",
     ]
@@ -1742,7 +2424,7 @@ def replay(path):
 
         def go(data):
             return run_case(impl, data, c.get("mode", "parse"), c.get("args", []), bool(c.get("big_stack")), cpu=30 if timing else 10,
-                            stack=c.get("stack"))
+                            stack=c.get("stack"), files=c.get("files"))
         r = go(src)
         s = signature(r)
         print("input: %d bytes%s, %s build, mode %s" % (len(src), (" (%s x %d)" % (g["kind"], g["depth"])) if "gen" in c else "",
@@ -1762,6 +2444,27 @@ def replay(path):
         print("exit", r["rc"], "cpu %.3f" % r["cpu"], "signature", s)
         print(r["err"][:1500])
         return 1 if s else 0
+    if "sg_line" in c:
+        common.ensure_model(PROP)
+        tdleaf = common.build_leaf("c10_typedefs", td_leaf_sources())
+        rc, o, e = common.sh([common.model_bin(PROP), "structs"], input=(c["sg_line"] + "\n").encode(), timeout=60)
+        mb = _td_blocks(o)[0]
+        ib = td_leaf_run(tdleaf, [(c["sg_source"], [])], cpu=5)[0]
+        print(c["sg_source"])
+        print("model:", mb.get("err"), mb.get("SD"))
+        print("impl: ", ib.get("err"), ib.get("SD"), ib.get("dead"))
+        return 0 if (mb.get("err") == ib.get("err") and mb.get("SD") == ib.get("SD") and not ib.get("dead")) else 1
+    if "td_line" in c:
+        common.ensure_model(PROP)
+        tdleaf = common.build_leaf("c10_typedefs", td_leaf_sources())
+        rc, o, e = common.sh([common.model_bin(PROP), "typedefs"], input=(c["td_line"] + "\n").encode(), timeout=60)
+        mb = _td_blocks(o)[0]
+        ib = td_leaf_run(tdleaf, [(c["td_source"], c["queries"])], cpu=5)[0]
+        print(c["td_source"])
+        print("model:", json.dumps(td_show(mb)))
+        print("impl: ", json.dumps(td_show(ib)))
+        print("differs in:", td_diff(mb, ib))
+        return 1 if td_diff(mb, ib) else 0
     if "input_hex" in c:
         common.ensure_model(PROP)
         leaf = common.build_leaf("c10_lexdump", ["src/frontend/recursive_parser/recursive_lexer.cpp"])
